@@ -122,7 +122,7 @@ Proof.
   destruct (parse_mb pkt) as [[h body]| |]; [|split; [reflexivity|discriminate]..].
   destruct (_ <? _)%Z; [split; [reflexivity|discriminate]|].
   destruct (h_count h <? 2); [split; [reflexivity|intros ? ? [= <- _]; exact Hwf]|].
-  set (k := (src, h_origin h, h_counter h)).
+  set (k := (src, h_origin h, _)).
   set (c := match col_get st k with Some c => c | None => _ end).
   assert (Hc : col_wf c).
   { unfold c. destruct (col_get st k) as [c0|] eqn:E.
